@@ -13,8 +13,13 @@ RULE = ("for each mixed tree (0/1/multi-block files, sparse file, nested dirs, l
         "system call site (syscall, object, k-th occurrence) and run once per applicable errno with that single call failed "
         "(thorough: plus seeded pairs and pct schedules). Oracle: exit != 0 is fine; exit 0 requires the full snapshot "
         "comparison (kinds, bytes, link text, modes, mtimes, backup content) to pass, and an injected fsync failure must "
-        "not exit 0. xattr/ownership calls are tolerated by the statement and not injected. distinct_nontrivial = distinct "
-        "(driver, syscall, object class, errno) among runs in which the planned fault was actually applied")
+        "not exit 0; entries nothing maps onto (earlier backups among them) must be unchanged. xattr/ownership calls are tolerated by "
+        "the statement and not injected. A second family needs no injection: the step fails by itself because something of the wrong "
+        "kind is in the way (file / link / fifo / socket where a directory belongs, directory where a file or link belongs), an entry "
+        "is immutable (chattr +i), the run is unprivileged (setpriv to uid 65534: unreadable file, unlistable directory, read-only or "
+        "unsearchable destination directory, unwritable destination file), or the destination is a tiny tmpfs of its own that fills "
+        "up, runs out of inodes or is mounted read-only -- same exit-0 oracle. distinct_nontrivial = distinct (driver, syscall, object "
+        "class, errno) among runs in which the planned fault was actually applied, plus distinct (driver, family, obstacles, outcome)")
 ASSUMPTIONS = ["a fault planned for a site that does not occur in its run is counted as missed, not as held",
                "close() failures and calls on objects outside the sandbox are not injected"]
 
@@ -112,7 +117,7 @@ def natural_cases(r, tier):
     """Steps that fail without any injection: something of the wrong kind, an immutable entry, or missing privilege is in the way."""
     for i in range(90 if tier == "quick" else 2400):
         driver = ["parfile", "parblock"][i % 2]
-        fam = ["kinds", "kinds", "immutable", "unpriv"][(i // 2) % 4]
+        fam = ["kinds", "kinds", "immutable", "unpriv", "mount"][(i // 2) % 5]
         pre = [{"p": "dst", "k": "d"}, {"p": "dst/src", "k": "d"}]
         obst, imm, prep = [], [], []
 
@@ -165,6 +170,21 @@ def natural_cases(r, tier):
                 pre += [F("dst/src/a", 40, 311)]
                 imm.append("dst/src/a")
             obst.append("immutable-" + what)
+        elif fam == "mount":
+            # the destination directory is a small file system of its own: it fills up, runs out of inodes, or is read-only
+            what = r.choice(["full", "full", "inodes", "readonly"])
+            if what == "full":
+                mopts = "size=%s" % r.choice(["64k", "128k", "256k", "300k", "4m"])
+            elif what == "inodes":
+                mopts = "size=4m,nr_inodes=%d" % r.choice([3, 5, 8, 12, 60])
+            else:
+                mopts = "size=4m"
+                for t in r.sample(NAT_FILES, 2):
+                    need_parents("dst/" + t)
+                    pre.append(F("dst/" + t, 33, 330))
+            if r.random() < 0.5 and what != "inodes":
+                need_parents("dst/src/sub/deep/z")
+            obst.append("fs-" + what + ":" + mopts)
         else:
             what = r.choice(["unreadable-file", "unlistable-dir", "readonly-dest-dir", "unwritable-dest-file", "unsearchable-dest-dir"])
             if what == "unreadable-file":
@@ -191,7 +211,7 @@ def natural_cases(r, tier):
         args += r.choice([[], [], ["--fsync"], ["--no-perms"], ["--no-timestamps"], ["--reflink", "never"], ["--no-progress"], ["-v"], ["--gitignore"]])
         if fam == "immutable" and obst[0] == "immutable-backup-source":
             args += ["--backup", "numbered"]
-        yield {"natural": fam, "obstacles": sorted(obst), "spec": NAT_SRC, "pre": pre, "immutable": imm, "prep": prep, "driver": driver, "variant": "natural", "fs": "ext4",
+        yield {"mount": mopts if fam == "mount" else None, "natural": fam, "obstacles": sorted(obst), "spec": NAT_SRC, "pre": pre, "immutable": imm, "prep": prep, "driver": driver, "variant": "natural", "fs": "ext4",
                "args": args + ["-r", "src", "dst"]}
 
 
@@ -200,9 +220,19 @@ def run_natural(case):
     with core.Sandbox("ext4", "c04n") as sb:
         root = sb.root
         tree.materialize(root, case["spec"])
-        tree.materialize(root, [dict(e, target=e["target"].replace("@ROOT@", root)) if "target" in e else e for e in case["pre"]])
+        mp = None
+        if case.get("mount"):
+            mp = os.path.join(root, "dst")
+            os.mkdir(mp)
+            if not core.mount_tmpfs(mp, case["mount"]):
+                res["inconc"].append("mount-unavailable")
+                return res
         argv = core.xcp_argv(case["args"])
         try:
+            tree.materialize(root, [dict(e, target=e["target"].replace("@ROOT@", root)) if "target" in e else e for e in case["pre"]])
+            if mp and "fs-readonly" in case["obstacles"][0] and not core.remount_ro(mp):
+                res["inconc"].append("remount-ro-unavailable")
+                return res
             if case["natural"] == "unpriv":
                 for dp, dn, fn in os.walk(b(root)):
                     for n in dn + fn + [b"."]:
@@ -223,6 +253,8 @@ def run_natural(case):
         finally:
             for path in case["immutable"]:
                 core.set_immutable(os.path.join(b(root), b(path)), False)
+            if mp:
+                core.umount(mp)
         if run.verdict != "exited":
             res["inconc"].append("run-" + run.verdict)
             return res
